@@ -187,7 +187,10 @@ func handleSUR() diam.HandlerFunc {
 			sua.ServiceRating.Price = monetaryCost
 		// price for the reserved units
 		case charging_datatype.REQ_SUBTYPE_RESERVE:
-			sua.ServiceRating.AllowedUnits = sr.MonetaryQuota / unitCost
+			// A zero (or unparsable, hence zero) unit cost cannot be divided by: allow no units
+			if unitCost != 0 {
+				sua.ServiceRating.AllowedUnits = sr.MonetaryQuota / unitCost
+			}
 			sua.ServiceRating.Price = sua.ServiceRating.AllowedUnits * unitCost
 		default:
 			logger.RatingLog.Warnf("Unknow request type")
